@@ -12,7 +12,9 @@
       (i)  JSON modes: the strict recognizer accepts text (for UTF-8 strings: without any excluded construct) and the
            value it denotes is tree - strings and keys byte for byte, ints as exact decimals, and in the exact modes
            every double/float token lies within half an ulp of the tree's binary64/binary32 pattern (bignum test), so
-           that every correctly rounding reader recovers the pattern;
+           that every correctly rounding reader recovers the pattern; in the 15/7-digit modes the token must be the
+           15/7-digit rounding of the pattern (within half a unit of its last digit) and the decoded number must be
+           the correctly rounded value of the token;
       (ii) dec = tree: same structure, keys, strings, booleans; ints numerically; in the exact modes non-zero doubles bit
            for bit (an integral double may come back as an int with the same value) and floats exactly after
            conversion to float.                                                                                  *)
@@ -41,6 +43,8 @@ RtOK(e) ==
                        /\ r.ok
                        /\ TextDenotes(r.v, tree, e.exact = 1)
                        /\ TreeUtf8(tree) => ~r.ex
+                       \* reduced-precision modes: tree ~ token is (i) above (15/7 digits); token -> decoded must be exact
+                       /\ (e.exact = 0) => ValMatches(r.v, e.dec, TRUE)
     /\ TreeRoundTrip(tree, e.dec, e.exact = 1)
 
 TInit == l = 1
